@@ -368,7 +368,7 @@ static std::string gen_name(Rng& r, int maxlen) {
   // a fifth of the names use the whole range a C string and a whitespace-delimited file token can hold: ASCII
   // punctuation and bytes above 127 (UTF-8 letters as in "\xce\xb1-Quartz", "\xc3\x85kermanite"), also as first byte -
   // orderings that treat char as signed, fold case or stop at punctuation only show on such names
-  static const char punct[] = "!$%&'()*,/:;<=>?@[]^`{|}~\"\\";
+  static const char punct[] = "!$%&'()*,/:;<=>?@[]^`{|}~\"\\  ";   // blanks too: fine for AddCrystal ("Diamond copy 12"), not a file token
   static const char* const utf8[] = {"\xce\xb1", "\xce\xb2", "\xce\xb3", "\xc3\x85", "\xc3\x96", "\xc3\xa9", "\xe2\x82\x82", "\xff", "\x80"};
   bool rich = r.chance(1, 5);
   int n = r.chance(9, 10) ? r.range(1, std::min(maxlen, 12)) : r.range(1, maxlen);
@@ -475,6 +475,19 @@ bool CrystalData::volume_comparable() const {
   double rad = 1 - ca * ca - cb * cb - cg * cg + 2 * ca * cb * cg;
   double v = model_volume();
   return rad > 0.009 && isfinite(v) && v > 0 && v < 1e100;
+}
+
+bool CrystalData::plain() const {
+  if (name_null || name.empty() || name.size() > 20) return false;
+  for (unsigned char ch : name)
+    if (!((ch >= 'A' && ch <= 'Z') || (ch >= 'a' && ch <= 'z') || (ch >= '0' && ch <= '9') || ch == '_' || ch == '-' || ch == '+' || ch == '.' || ch == ' ')) return false;
+  if (name.front() == ' ' || name.back() == ' ') return false;   // inner blanks are ordinary (the repository's own test adds "Diamond copy 12")
+  if (atoms.empty() || !volume_comparable()) return false;
+  for (int k = 0; k < 3; k++) if (!(cell[k] > 0.1 && cell[k] < 1000)) return false;
+  for (int k = 3; k < 6; k++) if (!(cell[k] > 5 && cell[k] < 175)) return false;
+  for (auto& a : atoms)
+    if (a.Z < 1 || a.Z > 98 || !(a.frac >= 0 && a.frac <= 1) || !(a.x >= 0 && a.x <= 1) || !(a.y >= 0 && a.y <= 1) || !(a.z >= 0 && a.z <= 1)) return false;
+  return true;
 }
 
 static thread_local int t_long_numbers_left = 0;   // per line: how many numbers may still be spelled with 25+ characters
